@@ -706,6 +706,38 @@ theorem sa_exact_after_update (s : Index) (sk : ShardKey) (k : Key) (eps : List 
   rw [(update_nonempty s sk k eps hne).1]
   simp
 
+/-! ## `Equals` on address lists -/
+
+theorem consume_perm (pool l : List String) (h : consume pool l = true) :
+    ∃ rest, pool.Perm (l ++ rest) := by
+  induction l generalizing pool with
+  | nil => exact ⟨pool, List.Perm.refl _⟩
+  | cons c t ih =>
+    simp only [consume, Bool.and_eq_true, List.contains_iff_mem] at h
+    obtain ⟨rest, hr⟩ := ih _ h.2
+    exact ⟨rest, (List.perm_cons_erase h.1).trans (List.Perm.cons c hr)⟩
+
+/-- The repaired `slices.EqualUnordered` is equality up to order: the two address lists are
+    permutations of each other (same elements with the same multiplicities). -/
+theorem equalUnordered_perm (a b : List String) (h : equalUnordered a b = true) : a.Perm b := by
+  simp only [equalUnordered, Bool.and_eq_true, beq_iff_eq] at h
+  obtain ⟨rest, hr⟩ := consume_perm a b h.2
+  have hl := hr.length_eq
+  rw [List.length_append, h.1] at hl
+  have : rest = [] := by
+    cases rest with
+    | nil => rfl
+    | cons x t => simp at hl
+  subst this
+  simpa using hr
+
+/-- Finding (pinned tree, fixed by 8c9910a): the old `EqualUnordered` called address lists with
+    different multiplicities equal, so `Equals` - and with it `NoPush` - missed such a change. -/
+theorem equalUnordered_pinned_witness :
+    equalUnorderedPinned ["10.0.0.1", "10.0.1.1"] ["10.0.0.1", "10.0.0.1"] = true ∧
+    equalUnordered ["10.0.0.1", "10.0.1.1"] ["10.0.0.1", "10.0.0.1"] = false := by
+  decide
+
 /-! ## Non-vacuity and corner witnesses -/
 
 def ep1 : Ep := { ns := "ns1", wl := "w1", addrs := ["10.0.0.1"], port := "http", sa := "sa1", health := 1 }
